@@ -267,7 +267,12 @@ func execAssoc[K comparable, V any](c assocCase, kt keyType[K], vt valType[V]) (
 		return s + "]"
 	}
 	A := col.Association[K, V](n)
+	// an empty Go array or Go map comes as an allocated empty one or as nil, in turn
+	nilWhenEmpty := len(c.Init) == 0 && len(c.Ops)%2 == 0
 	initAssocs := func() []col.AssociationLike[K, V] {
+		if nilWhenEmpty {
+			return nil
+		}
 		out := []col.AssociationLike[K, V]{}
 		for _, e := range c.Init {
 			out = append(out, A.Make(kt.keys[e.K], vt.vals[e.V]))
@@ -275,6 +280,9 @@ func execAssoc[K comparable, V any](c assocCase, kt keyType[K], vt valType[V]) (
 		return out
 	}
 	initMap := func() map[K]V {
+		if nilWhenEmpty {
+			return nil
+		}
 		m := map[K]V{}
 		for _, e := range c.Init {
 			m[kt.keys[e.K]] = vt.vals[e.V]
